@@ -350,8 +350,8 @@ pub fn defs() -> Vec<PropDef> {
         },
         PropDef {
             id: "C15", salt: 15, budget: (500, 10_000, 100), spec: spec_c15,
-            required: &[("c15.ledger_comparisons", 1), ("c15.updates_with_3plus_holders", 1), ("c15.claims", 1), ("c15.balance_changes_checked", 1)],
-            rule: "reward-contract world; reference ledger in exact 1e-36 arithmetic fed by observed balances and deliveries; a case is an index update with holders; distinct = (#holders, decade of delivery, decade of supply)",
+            required: &[("c15.ledger_comparisons", 1), ("c15.updates_with_3plus_holders", 1), ("c15.claims", 1), ("c15.balance_changes_checked", 1), ("c15.twins_reordered_compared", 1), ("c15.twins_others_claims_removed_compared", 1), ("c15.twins_split_compared", 1)],
+            rule: "reward-contract world; reference ledger in exact 1e-36 arithmetic fed by observed balances and deliveries; plus three relational twins per history replayed from the initial world (other holders' operations between updates reordered; other holders' claims / allowance operations removed; the observed position split over two accounts), compared in exact 1e-18 units; a case is an index update with holders; distinct = (#holders, decade of delivery, decade of supply)",
         },
         PropDef {
             id: "C16", salt: 16, budget: (600, 12_000, 100), spec: spec_c16,
